@@ -282,6 +282,19 @@ def run(ctx):
     results = []
     for part in pmap(do_lists, chunks):
         results += part
+    # the same calls (a slice of them) in a worker built with the race detector: Compare and Sort must not share unsynchronised state
+    from . import race
+    rb = race.build(ctx, worker=True)
+    rl = race.logdir(ctx, "worker")
+    n_rl = 250 if ctx.tier == "quick" else 5000
+    rreqs = [{"id": i, "do": "sortlist", "perms": [["  " + texts[id(r)] + "\n\n" for r in p] for p in perms]} for i, (s_, l_, perms) in enumerate(lists[:n_rl])]
+    rreps = worker.run_isolating(ctx, "aa", rreqs, lambda r, e: None, timeout=1800, bindir=rb, extra_env={"GORACE": race.gorace(rl)})
+    for (s_, l_, perms), rep, rr in zip(lists[:n_rl], results[:n_rl], rreps):
+        ctx.case(None)
+        if "ok" in rep and "ok" in rr and rep["ok"]["sorted"] != rr["ok"]["sorted"]:
+            viol("C11/sort-depends-on-input-order/under-race-detector", "the same Sort calls give another result in the worker built with -race: %s" % [texts[id(r)] for r in l_][:4],
+                 {"rules": [texts[id(r)] for r in l_]})
+    race.judge(ctx, "C11", rl, "worker, %d sort lists x 8 permutations" % len(rreqs), 1)
     for (stratum, lst, perms), rep in zip(lists, results):
         tx = [texts[id(r)] for r in lst]
         if worker.timed_out(ctx, rep):
